@@ -9,6 +9,11 @@ reported when a node owning one of the command's keys is unreachable.  `strict =
 out the recorded finding F-04c (the first request for a slot of a master that has just been
 replaced fails with the connect error that triggers the refresh). -/
 def handle (kind : String) (args : List String) (impl : String) : String :=
+  if kind == "c04.askpair" then
+    -- a single server: SET ka v1, GET ka → OK, v1; GET kb → vb; and v1 stays.  ASKING and the command it is for reach the target
+    -- back to back, whatever other traffic the target's connection carries.
+    (if impl == "c1=s4f4b,b7631 c2=b7662 final=b7631" then "ok"
+     else s!"DIFF model=c1=s4f4b,b7631 c2=b7662 final=b7631 impl={impl} ; SPEC redirected-command-not-answered-as-a-single-server-would impl={impl}") else
   let strict := kind == "c04.strict"
   match evaluate args impl with
   | none => "bad-op"
